@@ -240,6 +240,17 @@ def check_edit(lines0, prefix, t, kind, new_lines, expect, horizon, base_run, fi
     proj = projection(run, new_lines)
     final_ms = run.method_state()
     run.cleanup()
+    if merge and rec.get("interrupts_before", 0) > 0 and not restarted(base_run, t, proj, fproj):
+        # the merge carries the registered Watch/Alarm interrupts over to the new interpreter *and* the method restarts
+        # and registers them again: bodies run twice or against reset nodes (one more consequence of restart-after-merge)
+        differs = [f for f in ("mark_counts", "scope_order", "cmd_counts", "instances_left", "state") if proj[f] != fproj[f]]
+        if differs or proj["bad_life"]:
+            out.append(("C01:merge-with-registered-interrupt",
+                        f"edit '{kind}' at tick {t} with {rec['interrupts_before']} Watch/Alarm interrupt(s) registered: "
+                        f"{differs or 'command life cycle'} differ from a fresh run of the final method "
+                        f"(marks {proj['mark_counts']} vs {fproj['mark_counts']}, commands {proj['cmd_counts']} vs {fproj['cmd_counts']}, "
+                        f"state {proj['state']} vs {fproj['state']})"))
+            return out, "compared", q
     if proj["bad_life"]:
         # a command that was executing when the edit landed and is never finalized afterwards
         dropped = [n for n, ph in proj["bad_life"] if "finalize" not in ph]
@@ -347,15 +358,18 @@ def corpus(ctx):
     two = list(pgen.forests(KINDS_FULL, 2, 2))
     if ctx.quick:
         two_small = set(pgen.forests(["M", "L", "K", "W"], 2, 2))
-        three = list(pgen.forests(["M", "L", "K", "Wa"], 3, 2))
+        three = list(pgen.forests(["M", "L", "K", "Wa", "W"], 3, 2))
         items = ([(f, H_QUICK, True) for f in one] + [(f, H_QUICK, f in two_small) for f in two]
                  + [(f, H_QUICK, False) for f in three])
-        bounds = "1 stmt and 2 stmts over {M,L,K,W}: two successive edits; 2 stmts full grammar and 3 stmts over {M,L,K,Wa}: one edit"
+        bounds = "1 stmt and 2 stmts over {M,L,K,W}: two successive edits; 2 stmts full grammar and 3 stmts over {M,L,K,Wa,W}: one edit"
     else:
         three = list(pgen.forests(KINDS_FULL, 3, 2))
         four = list(pgen.forests(KINDS_3, 4, 2))
         items = ([(f, 56, True) for f in one + two] + [(f, 56, False) for f in three] + [(f, 60, False) for f in four])
         bounds = "<=2 stmts full grammar: two successive edits; 3 stmts full grammar and 4 stmts over {M,W,L,K,Wa,b}: one edit"
+    # openers with an empty body are silently re-nested by the parser (C17 finding): such texts do not mean what the
+    # generator intends, so they are left out here
+    items = [it for it in items if pgen.no_empty_openers(it[0])]
     return items, bounds
 
 
